@@ -105,105 +105,103 @@ def needs_quote(s):
     return s == "" or s == "?" or any(ch in s for ch in "\"'\\ \t%,{}")
 
 
-def arff_token(s, sp, r):
-    """one string value / name / level in the file's spelling. r: Rng for per-token choices."""
+def _dec(sp, *key):
+    """an independent random source per writer decision, so that dropping one spelling option
+    does not perturb the others (needed by the feature analysis and the shrinker)"""
+    return Rng(sp.get("sseed", 0), *key)
+
+
+def arff_token(s, sp, key):
+    """one string value / name / level in the file's spelling. key: position of the token."""
     style = sp.get("style", "weka")
-    if style == "weka":
-        t = weka_quote(s)
-    elif style == "liac":
-        t = liac_quote(s)
-    else:
-        t = None
+    t = weka_quote(s) if style == "weka" else liac_quote(s)
     qs = sp.get("quote", "single")
-    if style in ("weka", "liac"):
-        if t[0] == "'" and len(t) >= 2 and needs_quote(s):
-            if qs == "double" or (qs == "mix" and r.chance(0.5)):
-                t = alt_quote(s, '"', style == "weka")
-        elif sp.get("force_quote") and r.chance(0.7):
-            q = "'" if qs == "single" or (qs == "mix" and r.chance(0.5)) else '"'
-            t = alt_quote(s, q, False)
-        return t
-    raise ValueError(style)
+    r = _dec(sp, "tok", *key)
+    if t[0] == "'" and len(t) >= 2 and needs_quote(s):
+        if qs == "double" or (qs == "mix" and r.chance(0.5)):
+            t = alt_quote(s, '"', style == "weka")
+    elif sp.get("force_quote") and r.chance(0.7):
+        q = "'" if qs == "single" or (qs == "mix" and r.chance(0.5)) else '"'
+        t = alt_quote(s, q, False)
+    return t
 
 
-def kw(word, sp, r):
-    c = sp.get("kw_case", "lower")
-    if c == "upper":
+def kw(word, case, sp, key):
+    if case == "upper":
         return word.upper()
-    if c == "mixed":
+    if case == "mixed":
+        r = _dec(sp, "kw", *key)
         return "".join(ch.upper() if r.chance(0.5) else ch for ch in word)
-    if c == "title":
+    if case == "title":
         return word[0] + word[1:].capitalize() if word[0] == "@" else word.capitalize()
     return word
 
 
-def arff_header(table, sp, r):
+def arff_header(table, sp):
     lines = []
     ws = sp.get("attr_ws", " ")
-    if sp.get("comments") and r.chance(0.7):
+    kc, tc = sp.get("kw_case", "lower"), sp.get("type_case", "lower")
+    if sp.get("comments") and _dec(sp, "c0").chance(0.7):
         lines.append("% generated for C12, with a comment, and 'quotes' \" { }")
-    lines.append(kw("@relation", sp, r) + " " + arff_token(sp.get("relation", "rel"), sp, r))
+    lines.append(kw("@relation", kc, sp, ("rel",)) + " " + arff_token(sp.get("relation", "rel"), sp, ("rel",)))
     if sp.get("blanks"):
         lines.append("")
-    for c in table["cols"]:
-        if sp.get("comments") and r.chance(0.3):
-            lines.append("%" + r.choice(["", " c", " @attribute x numeric", " @data"]))
-        if sp.get("blanks") and r.chance(0.2):
-            lines.append(r.choice(["", "  ", "\t"]))
+    for j, c in enumerate(table["cols"]):
+        if sp.get("comments") and _dec(sp, "ch", j).chance(0.3):
+            lines.append("%" + _dec(sp, "ch2", j).choice(["", " c", " @attribute x numeric", " @data"]))
+        if sp.get("blanks") and _dec(sp, "bh", j).chance(0.2):
+            lines.append(_dec(sp, "bh2", j).choice(["", "  ", "\t"]))
         ty = c["type"]
         if ty == "nominal":
             sep = sp.get("nominal_sep", ",")
-            inner = sep.join(arff_token(v, sp, r) for v in c["levels"])
+            inner = sep.join(arff_token(v, sp, ("lv", j, k)) for k, v in enumerate(c["levels"]))
             pad = sp.get("nominal_pad", "")
             t = "{" + pad + inner + pad + "}"
         elif ty == "date":
-            t = kw("date", dict(sp, kw_case=sp.get("type_case", "lower")), r)
+            t = kw("date", tc, sp, ("ty", j))
             if sp.get("date_fmt"):
                 t += " " + ('"yyyy-MM-dd"' if sp.get("quote") == "double" else "'yyyy-MM-dd'")
         elif ty == "numeric":
-            t = kw(sp.get("numeric_word", "numeric") if not c.get("word") else c["word"], dict(sp, kw_case=sp.get("type_case", "lower")), r)
+            t = kw(c.get("word") or sp.get("numeric_word", "numeric"), tc, sp, ("ty", j))
         else:
-            t = kw("string", dict(sp, kw_case=sp.get("type_case", "lower")), r)
-        line = kw("@attribute", sp, r) + ws + arff_token(c["name"], sp, r) + ws + t
-        if sp.get("trail_ws") and r.chance(0.3):
-            line += r.choice([" ", "  ", "\t"])
-        if sp.get("lead_ws") and r.chance(0.3):
-            line = r.choice([" ", "\t"]) + line
+            t = kw("string", tc, sp, ("ty", j))
+        line = kw("@attribute", kc, sp, ("at", j)) + ws + arff_token(c["name"], sp, ("nm", j)) + ws + t
+        if sp.get("trail_ws") and _dec(sp, "th", j).chance(0.3):
+            line += _dec(sp, "th2", j).choice([" ", "  ", "\t"])
+        if sp.get("lead_ws") and _dec(sp, "lh", j).chance(0.3):
+            line = _dec(sp, "lh2", j).choice([" ", "\t"]) + line
         lines.append(line)
     if sp.get("blanks"):
         lines.append("")
-    lines.append(kw("@data", sp, r))
+    lines.append(kw("@data", kc, sp, ("data",)))
     return lines
 
 
-def arff_cell(c, v, sp, r):
+def arff_cell(c, v, sp, key):
     if v is None:
         return "?"
     if c["type"] == "numeric":
         return v
-    if c["type"] == "date" and sp.get("date_fmt"):
-        return arff_token(v, dict(sp, force_quote=True), r) if sp.get("quote_dates") else arff_token(v, sp, r)
-    return arff_token(v, sp, r)
+    return arff_token(v, sp, key)
 
 
 def write_arff_dense(table, sp):
-    r = Rng(sp.get("sseed", 0), "arff")
-    lines = arff_header(table, sp, r)
+    lines = arff_header(table, sp)
     sep = sp.get("sep", ",")
-    for row in table["rows"]:
-        if sp.get("comments") and r.chance(0.25):
-            lines.append(r.choice(["%", "% a,b,c", "%?", "% {0 1}"]))
-        if sp.get("blanks") and r.chance(0.25):
-            lines.append(r.choice(["", " "]))
-        line = sep.join(arff_cell(c, v, sp, r) for c, v in zip(table["cols"], row))
-        if sp.get("trail_ws") and r.chance(0.3):
-            line += r.choice([" ", "  ", "\t"])
-        if sp.get("lead_ws") and r.chance(0.3):
-            line = r.choice([" ", "  "]) + line
+    for i, row in enumerate(table["rows"]):
+        if sp.get("comments") and _dec(sp, "cd", i).chance(0.25):
+            lines.append(_dec(sp, "cd2", i).choice(["%", "% a,b,c", "%?", "% {0 1}"]))
+        if sp.get("blanks") and _dec(sp, "bd", i).chance(0.25):
+            lines.append(_dec(sp, "bd2", i).choice(["", " "]))
+        line = sep.join(arff_cell(c, v, sp, ("cell", i, j)) for j, (c, v) in enumerate(zip(table["cols"], row)))
+        if sp.get("trail_ws") and _dec(sp, "td", i).chance(0.3):
+            line += _dec(sp, "td2", i).choice([" ", "  ", "\t"])
+        if sp.get("lead_ws") and _dec(sp, "ld", i).chance(0.3):
+            line = _dec(sp, "ld2", i).choice([" ", "  "]) + line
         lines.append(line)
-    if sp.get("blanks") and r.chance(0.5):
+    if sp.get("blanks") and _dec(sp, "be").chance(0.5):
         lines.append("")
-    if sp.get("comments") and r.chance(0.3):
+    if sp.get("comments") and _dec(sp, "ce").chance(0.3):
         lines.append("% end")
     return lines
 
@@ -222,25 +220,24 @@ def sparse_is_default(c, v):
 
 
 def write_arff_sparse(table, sp):
-    r = Rng(sp.get("sseed", 0), "arff")
-    lines = arff_header(table, sp, r)
+    lines = arff_header(table, sp)
     sep = sp.get("sparse_sep", ",")
-    for row in table["rows"]:
-        if sp.get("comments") and r.chance(0.25):
-            lines.append(r.choice(["%", "% {0 1}", "%?"]))
-        if sp.get("blanks") and r.chance(0.25):
+    for i, row in enumerate(table["rows"]):
+        if sp.get("comments") and _dec(sp, "cd", i).chance(0.25):
+            lines.append(_dec(sp, "cd2", i).choice(["%", "% {0 1}", "%?"]))
+        if sp.get("blanks") and _dec(sp, "bd", i).chance(0.25):
             lines.append("")
         items = []
         for j, (c, v) in enumerate(zip(table["cols"], row)):
-            if sparse_is_default(c, v) and not (sp.get("sparse_explicit_zero") and r.chance(0.5)):
+            if sparse_is_default(c, v) and not (sp.get("sparse_explicit_zero") and _dec(sp, "ez", i, j).chance(0.5)):
                 continue
-            items.append("%d %s" % (j, arff_cell(c, v, sp, r)))
+            items.append("%d %s" % (j, arff_cell(c, v, sp, ("cell", i, j))))
         pad = sp.get("sparse_pad", "")
         line = "{" + pad + sep.join(items) + pad + "}"
-        if sp.get("trail_ws") and r.chance(0.3):
-            line += r.choice([" ", "\t"])
+        if sp.get("trail_ws") and _dec(sp, "td", i).chance(0.3):
+            line += _dec(sp, "td2", i).choice([" ", "\t"])
         lines.append(line)
-    if sp.get("blanks") and r.chance(0.5):
+    if sp.get("blanks") and _dec(sp, "be").chance(0.5):
         lines.append("")
     return lines
 
@@ -273,44 +270,60 @@ def expect_arff(table, dense):
 
 
 # ------------------------------------------------------------------ CSV
-def csv_field(s, sp, r, edge=False):
-    """RFC 4180: fields with the delimiter, a double quote or a line break are quoted, quotes doubled.
-    `edge`: first/last field of a record; mode 'minimal' never quotes spaces (RFC: spaces are part of the field)."""
-    d = sp.get("delimiter", ",")
-    must = any(ch in s for ch in (d, '"', "\n", "\r"))
+def csv_quote_choice(s, sp, r):
+    """RFC 4180: fields with the delimiter, a double quote or a line break MUST be quoted (quotes doubled);
+    any other field MAY be quoted.  Returns the writer's free choice (the mandatory part is applied by the renderer)."""
     mode = sp.get("quoting", "minimal")
     if mode == "all":
-        q = True
-    elif mode == "nonnumeric":
+        return True
+    if mode == "nonnumeric":
         try:
             float(s)
-            q = must
+            return False
         except ValueError:
-            q = True
-    elif mode == "some":
-        q = must or r.chance(0.4)
-    else:
-        q = must
-    if q:
-        return '"' + s.replace('"', '""') + '"'
-    return s
+            return True
+    if mode == "some":
+        return r.chance(0.4)
+    return False
 
 
-def write_csv(rows, sp, header=None):
+def csv_plan(rows, sp, header=None):
+    """rows of (quote?, field) as an RFC 4180 writer would emit them, one record per line"""
     r = Rng(sp.get("sseed", 0), "csv")
+    plan = []
+    for row in ([header] if header is not None else []) + rows:
+        pr = [[csv_quote_choice(s, sp, r), s] for s in row]
+        if len(pr) == 1 and pr[0][1] == "":
+            pr[0][0] = True            # a lone empty field is written as "" (what csv.writer does)
+        if sp.get("quote_edges"):      # writer that protects leading/trailing white space by quoting
+            for k in (0, -1):
+                if pr[k][1] != pr[k][1].strip():
+                    pr[k][0] = True
+        plan.append(pr)
+    return plan
+
+
+def csv_render(plan, sp):
     d = sp.get("delimiter", ",")
+    r = Rng(sp.get("sseed", 0), "csvblank")
     lines = []
-    allrows = ([header] if header is not None else []) + rows
-    for k, row in enumerate(allrows):
+    for pr in plan:
         if sp.get("blanks") and r.chance(0.25):
             lines.append("")
-        if len(row) == 1 and row[0] == "" and sp.get("quoting", "minimal") in ("minimal", "some", "nonnumeric"):
-            lines.append('""')       # what csv.writer does for a lone empty field
-            continue
-        lines.append(d.join(csv_field(s, sp, r) for s in row))
+        out = []
+        for q, s in pr:
+            if q or any(ch in s for ch in (d, '"', "\n", "\r")):
+                out.append('"' + s.replace('"', '""') + '"')
+            else:
+                out.append(s)
+        lines.append(d.join(out))
     if sp.get("blanks") and r.chance(0.4):
         lines.append("")
     return lines
+
+
+def write_csv(rows, sp, header=None):
+    return csv_render(csv_plan(rows, sp, header), sp)
 
 
 def gen_csv_table(rng):
@@ -366,3 +379,1146 @@ def write_svm(rows, sp, manik=False):
 
 def expect_svm(rows):
     return [[{int(k): float(v) for k, v in row["feats"]}, list(row["labels"])] for row in rows]
+
+
+# ====================================================================== the property module
+import io
+import json
+import os
+import shutil
+import tempfile
+import zlib
+
+from core.engine import Property, F
+
+BREAKS = "\n\r\x0b\x0c\x1c\x1d\x1e\x85  "
+EXOTIC = "\x0b\x0c\x1c\x1d\x1e\x85  "
+
+
+def cps(s):
+    return [ord(ch) for ch in s]
+
+
+def uncps(l):
+    return "".join(chr(c) for c in l)
+
+
+def errname(e):
+    return type(e).__name__
+
+
+# ---------------------------------------------------------------------- real-code runners
+def compress(data, enc, level=6):
+    if enc == "gzip":
+        co = zlib.compressobj(level, zlib.DEFLATED, 16 + zlib.MAX_WBITS)
+    elif enc == "deflate":
+        co = zlib.compressobj(level, zlib.DEFLATED, -zlib.MAX_WBITS)
+    else:
+        return data
+    return co.compress(data) + co.flush()
+
+
+def pieces_of(data, enc, chunk):
+    """the decompressed stream in the pieces zlib hands them out when fed `chunk` bytes at a time
+    (what `decompChunks D` is for D = zlib; computed by the harness with its own decompressobj)"""
+    if enc == "gzip":
+        dec = zlib.decompressobj(16 + zlib.MAX_WBITS).decompress
+    elif enc == "deflate":
+        dec = zlib.decompressobj(-zlib.MAX_WBITS).decompress
+    else:
+        dec = lambda x: x
+    if not chunk:
+        return [dec(data)]
+    return [dec(data[i:i + chunk]) for i in range(0, len(data), chunk)]
+
+
+def run_byte_it(enc, chunk, data):
+    from coba.pipes.sources import HttpSource
+    try:
+        r = HttpSource._byte_it_(enc, "utf-8", chunk, io.BytesIO(data))
+        return {"ok": r} if isinstance(r, str) else {"ok": list(r)}
+    except Exception as e:
+        return {"err": errname(e)}
+
+
+def run_delim(chunks):
+    from coba.pipes.sources import DelimSource, IterableSource
+    try:
+        return {"ok": list(DelimSource(IterableSource(list(chunks))).read())}
+    except Exception as e:
+        return {"err": errname(e)}
+
+
+def run_disk(writes, gz, batch, name="f"):
+    """DiskSink(path,batch=batch).write(w) for each w, then list(DiskSource(path).read()); also the raw bytes"""
+    from coba.pipes.sinks import DiskSink
+    from coba.pipes.sources import DiskSource
+    d = tempfile.mkdtemp(prefix="c12_")
+    try:
+        path = os.path.join(d, name + (".log.gz" if gz else ".log"))
+        try:
+            sink = DiskSink(path, batch=batch) if batch else DiskSink(path)
+            for w in writes:
+                sink.write(w)
+            raw = None
+            if os.path.exists(path):
+                with open(path, "rb") as f:
+                    raw = f.read()
+            return {"ok": list(DiskSource(path).read()), "raw": raw}
+        except Exception as e:
+            return {"err": errname(e)}
+    finally:
+        shutil.rmtree(d, ignore_errors=True)
+
+
+def deliver(lines, via):
+    """lines -> lines through a delivery path of coba. Returns (result, expected_lines)"""
+    mode = via.get("mode", "lines")
+    if mode == "lines":
+        return {"ok": list(lines)}, list(lines)
+    if mode == "disk":
+        r = run_disk([list(lines)], via.get("gz", False), via.get("batch"))
+        r.pop("raw", None)
+        return r, list(lines)
+    le = via.get("le", "\n")
+    text = le.join(lines) + (le if lines and via.get("final_nl", True) else "")
+    data = compress(text.encode("utf-8"), via.get("enc"), via.get("level", 6))
+    return run_byte_it(via.get("enc"), via.get("chunk", 7), data), text.splitlines()
+
+
+def canon_cell(v):
+    from coba.primitives import Categorical
+    if v is None:
+        return ["missing"]
+    if isinstance(v, Categorical):
+        return ["cat", str(v), [str(x) for x in v.levels]]
+    if isinstance(v, bool):
+        return ["other", repr(v)]
+    if isinstance(v, (int, float)):
+        return ["num", float(v)]
+    if isinstance(v, str):
+        return ["str", v]
+    return ["other", repr(v)]
+
+
+def run_arff(lines, dense):
+    from coba.pipes.readers import ArffReader
+    try:
+        rows = list(ArffReader().filter(list(lines)))
+        out = []
+        for r in rows:
+            if dense:
+                cells = [canon_cell(v) for v in r]
+                hdr = [k for k, _ in sorted(dict(r.headers).items(), key=lambda kv: kv[1])]
+                byname = [canon_cell(r[h]) for h in hdr]
+                out.append({"cells": cells, "missing": bool(r.missing), "headers": hdr, "byname": byname})
+            else:
+                items = {str(k): canon_cell(v) for k, v in r.items()}
+                out.append({"cells": items, "missing": bool(r.missing), "keys": sorted(str(k) for k in r.keys())})
+        return {"ok": out}
+    except Exception as e:
+        return {"err": errname(e), "msg": str(e)[:120]}
+
+
+def run_csv(lines, has_header, delimiter):
+    from coba.pipes.readers import CsvReader
+    try:
+        dialect = {} if delimiter == "," else {"delimiter": delimiter}
+        rows = list(CsvReader(has_header=has_header, **dialect).filter(list(lines)))
+        hdr = None
+        if has_header and rows:
+            hdr = [k for k, _ in sorted(dict(rows[0].headers).items(), key=lambda kv: kv[1])]
+        return {"ok": {"header": hdr, "rows": [[x for x in r] for r in rows]}}
+    except Exception as e:
+        return {"err": errname(e)}
+
+
+def run_svm(lines, manik):
+    from coba.pipes.readers import LibsvmReader, ManikReader
+    try:
+        rows = list((ManikReader() if manik else LibsvmReader()).filter(list(lines)))
+        return {"ok": [[{int(k): float(v) for k, v in r[0].items()}, [str(l) for l in r[1]]] for r in rows]}
+    except Exception as e:
+        return {"err": errname(e)}
+
+
+# ---------------------------------------------------------------------- text / cut generators
+ALPHA_TEXT = ["a", "b", "z", "0", " ", ",", "é", "ß", "中", "€", "\U0001F600", "\U00010348", "'", '"', "\t"]
+TERMS = ["\n", "\n", "\n", "\r\n", "\r\n", "\r\n", "\r", "\x0b", "\x0c", "\x1c", "\x1d", "\x1e", "\x85", " ", " "]
+
+
+def gen_doc(rng, maxlines=6, exotic=True):
+    n = rng.choice([0, 1, 1, 2, 2, 3, 4, maxlines])
+    mode = rng.below(4)
+    out = []
+    for i in range(n):
+        ln = "".join(rng.choice(ALPHA_TEXT) for _ in range(rng.choice([0, 0, 1, 2, 3, 5, 8])))
+        if mode == 0:
+            t = "\n"
+        elif mode == 1:
+            t = "\r\n"
+        elif mode == 2:
+            t = rng.choice(["\n", "\r\n", "\r"])
+        else:
+            t = rng.choice(TERMS if exotic else TERMS[:7])
+        if i == n - 1 and rng.chance(0.4):
+            t = ""
+        out.append(ln + t)
+    return "".join(out)
+
+
+def interesting_positions(data):
+    """byte offsets where a cut is delicate: inside a multi-byte character, between \\r and \\n,
+    right after an exotic line boundary"""
+    pos = []
+    for i in range(1, len(data)):
+        if data[i] & 0xC0 == 0x80:
+            pos.append(i)
+        if data[i - 1] == 13 and data[i] == 10:
+            pos.append(i)
+    text = data.decode("utf-8", "ignore")
+    off = 0
+    for ch in text:
+        off += len(ch.encode("utf-8"))
+        if ch in EXOTIC and off < len(data):
+            pos.append(off)
+    return sorted(set(pos))
+
+
+def cut_features(pieces):
+    """which delicate cuts a sequence of decompressed byte pieces contains"""
+    feats = set()
+    joined = b"".join(pieces)
+    off = 0
+    cuts = []
+    for p in pieces[:-1]:
+        off += len(p)
+        cuts.append(off)
+    nonempty_cuts = sorted(set(c for c in cuts if 0 < c < len(joined)))
+    for c in nonempty_cuts:
+        if joined[c] & 0xC0 == 0x80:
+            feats.add("utf8split")
+    try:
+        text = joined.decode("utf-8")
+    except UnicodeDecodeError:
+        feats.add("invalid")
+        return feats
+    # map byte cuts to char cuts
+    boff = 0
+    bpos = {}
+    for i, ch in enumerate(text):
+        bpos[boff] = i
+        boff += len(ch.encode("utf-8"))
+    for c in nonempty_cuts:
+        if c in bpos:
+            i = bpos[c]
+            if i > 0 and text[i - 1] == "\r" and text[i] == "\n":
+                feats.add("crlf")
+            if i > 0 and text[i - 1] in EXOTIC:
+                feats.add("ubreak")
+    return feats
+
+
+def text_cut_features(chunks):
+    feats = set()
+    ne = [c for c in chunks if c]
+    for a, b in zip(ne, ne[1:]):
+        if a[-1] == "\r" and b[0] == "\n":
+            feats.add("crlf")
+        if a[-1] in EXOTIC:
+            feats.add("ubreak")
+    return feats
+
+
+def delivery_sig(prefix, impl, expected, feats):
+    """signature of a delivery failure: symptom + the delicate cuts present"""
+    if "err" in impl:
+        if impl["err"] == "UnicodeDecodeError" and "utf8split" in feats:
+            return prefix + ":UnicodeDecodeError:utf8split"
+        return prefix + ":raises-" + impl["err"]
+    f = sorted(feats & {"crlf", "ubreak"})
+    return prefix + ":lines-differ:" + ("+".join(f) if f else "no-delicate-cut")
+
+
+# ---------------------------------------------------------------------- ARFF feature analysis
+CHAR_FEATS = [("bs", "\\"), ("sq", "'"), ("dq", '"'), ("pct", "%"), ("comma", ","), ("space", " "), ("lbrace", "{"), ("rbrace", "}"),
+              ("qmark", "?"), ("nonascii", None), ("punct", ";:=#@|/")]
+
+
+def _strip_feat(s, feat):
+    name, chars = feat
+    if name == "nonascii":
+        return "".join(ch if ord(ch) < 128 else "u" for ch in s)
+    return "".join(("p" if ch in chars else ch) for ch in s)
+
+
+def _has_feat(s, feat):
+    name, chars = feat
+    if name == "nonascii":
+        return any(ord(ch) >= 128 for ch in s)
+    return any(ch in chars for ch in s)
+
+
+def _uniq(names):
+    seen, out = set(), []
+    for n in names:
+        m = n
+        k = 0
+        while m in seen or m == "":
+            k += 1
+            m = (n or "e") + "x%d" % k
+        seen.add(m)
+        out.append(m)
+    return out
+
+
+def arff_features(case):
+    """removable features of an ARFF case, in a fixed order: (name, present?, remover)"""
+    t, sp = case["table"], case["sp"]
+    feats = []
+
+    def map_table(fn_name, fn_level, fn_cell):
+        cols = []
+        newnames = _uniq([fn_name(c["name"]) for c in t["cols"]])
+        lvmaps = []
+        for c, nn in zip(t["cols"], newnames):
+            c2 = dict(c, name=nn)
+            if c["type"] == "nominal":
+                nl = _uniq([fn_level(v) for v in c["levels"]])
+                lvmaps.append(dict(zip(c["levels"], nl)))
+                c2["levels"] = nl
+            else:
+                lvmaps.append(None)
+            cols.append(c2)
+        rows = []
+        for row in t["rows"]:
+            r2 = []
+            for c, v, lm in zip(t["cols"], row, lvmaps):
+                if v is None:
+                    r2.append(None)
+                elif c["type"] == "nominal":
+                    r2.append(lm[v])
+                elif c["type"] in ("string", "date"):
+                    r2.append(fn_cell(v))
+                else:
+                    r2.append(v)
+            rows.append(r2)
+        return dict(case, table={"cols": cols, "rows": rows})
+
+    ident = lambda s: s
+    for loc in ("name", "level", "cell"):
+        for feat in CHAR_FEATS:
+            def strings(loc=loc):
+                if loc == "name":
+                    return [c["name"] for c in t["cols"]]
+                if loc == "level":
+                    return [v for c in t["cols"] if c["type"] == "nominal" for v in c["levels"]]
+                return [v for row in t["rows"] for c, v in zip(t["cols"], row) if v is not None and c["type"] in ("string", "date")]
+            present = any(_has_feat(s, feat) for s in strings())
+            f = lambda s, feat=feat: _strip_feat(s, feat)
+            rem = (lambda loc=loc, f=f: map_table(f if loc == "name" else ident, f if loc == "level" else ident, f if loc == "cell" else ident))
+            feats.append(("%s-%s" % (loc, feat[0]), present, rem))
+    # empty strings
+    present = any(v == "" for row in t["rows"] for v in row)
+    feats.append(("cell-empty", present, lambda: map_table(ident, ident, lambda s: s or "e")))
+    # missing cells
+    def fill_missing():
+        rows = []
+        for row in t["rows"]:
+            r2 = []
+            for c, v in zip(t["cols"], row):
+                if v is None:
+                    v = "1" if c["type"] == "numeric" else (c["levels"][0] if c["type"] == "nominal" else ("2001-01-01" if c["type"] == "date" else "m"))
+                r2.append(v)
+            rows.append(r2)
+        return dict(case, table=dict(t, rows=rows))
+    feats.append(("missing", any(v is None for row in t["rows"] for v in row), fill_missing))
+    # unusual numerals
+    def plain_nums():
+        rows = [[("1" if (c["type"] == "numeric" and v is not None and float(v) != 0) else ("0" if c["type"] == "numeric" and v is not None else v))
+                 for c, v in zip(t["cols"], row)] for row in t["rows"]]
+        return dict(case, table=dict(t, rows=rows))
+    feats.append(("numeral", any(c["type"] == "numeric" and v not in (None, "0", "1") for row in t["rows"] for c, v in zip(t["cols"], row)), plain_nums))
+    # spelling options back to the canonical writer
+    for k in sorted(sp):
+        if k in ("sseed", "style"):
+            continue
+        if sp[k] in (None, False, "", "lower", "single", ",", " ") and k != "date_fmt":
+            continue
+        feats.append(("sp-" + k + ("=" + str(sp[k]).replace("\t", "TAB").replace(" ", "_") if not isinstance(sp[k], bool) else ""), True,
+                      (lambda k=k: dict(case, sp={kk: vv for kk, vv in sp.items() if kk != k}))))
+    if sp.get("style", "weka") != "weka":
+        feats.append(("sp-style=" + sp["style"], True, lambda: dict(case, sp=dict(sp, style="weka"))))
+    return feats
+
+
+def arff_lines(case):
+    return (write_arff_dense if case["dense"] else write_arff_sparse)(case["table"], case["sp"])
+
+
+def arff_compare(case, got):
+    """(B) for ARFF: symptom string when what coba returned is not the table that was written, else None.
+    Sparse: the extra level '0' coba adds in front of every sparse nominal attribute is accepted (documented)."""
+    t, dense = case["table"], case["dense"]
+    exp = expect_arff(t, dense)
+    names = [c["name"] for c in t["cols"]]
+    if "err" in got:
+        return "raises-" + got["err"], got.get("msg", "")
+    rows = got["ok"]
+    if len(rows) != len(exp):
+        return "row-count", "%d rows read, %d written" % (len(rows), len(exp))
+    for i, (g, e) in enumerate(zip(rows, exp)):
+        if dense:
+            if g["headers"] != names:
+                return "column-names", "headers %r, written %r" % (g["headers"], names)
+            if len(g["cells"]) != len(e["cells"]):
+                return "column-count", "row %d has %d cells, written %d" % (i, len(g["cells"]), len(e["cells"]))
+            for j, (gc, ec) in enumerate(zip(g["cells"], e["cells"])):
+                if gc != ec:
+                    kind = "levels" if (gc[0] == ec[0] == "cat" and gc[1] == ec[1]) else ("missing-marker" if "missing" in (gc[0], ec[0]) else "cell-" + ec[0])
+                    return kind, "row %d column %r: read %r, written %r" % (i, names[j], gc, ec)
+            if g["byname"] != g["cells"]:
+                return "by-name", "row %d: access by column name gives %r, by position %r" % (i, g["byname"], g["cells"])
+        else:
+            gk = dict(g["cells"])
+            for k, ec in e["cells"].items():
+                if k not in gk:
+                    return "cell-absent", "row %d column %r written %r but absent" % (i, k, ec)
+                gc = gk.pop(k)
+                if gc[0] == "cat" and ec[0] == "cat" and gc[1] == ec[1]:
+                    if gc[2] == ["0"] + ec[2] or ("0" in ec[2] and sorted(gc[2]) == sorted(ec[2])):
+                        continue
+                    return "levels", "row %d column %r: levels %r, written %r" % (i, k, gc[2], ec[2])
+                if gc != ec:
+                    kind = "missing-marker" if "missing" in (gc[0], ec[0]) else "cell-" + ec[0]
+                    return kind, "row %d column %r: read %r, written %r" % (i, k, gc, ec)
+            for k, gc in gk.items():
+                # left over: must be an implicit default of a column that was not written (numeric 0 / nominal '0')
+                col = [c for c in t["cols"] if c["name"] == k]
+                if not col:
+                    return "column-names", "row %d has unknown column %r" % (i, k)
+                c = col[0]
+                if c["type"] == "nominal" and gc[0] == "cat" and gc[1] == "0":
+                    continue
+                if c["type"] == "numeric" and gc == ["num", 0.0]:
+                    continue
+                return "cell-extra", "row %d column %r: read %r, nothing written" % (i, k, gc)
+        if bool(g["missing"]) != bool(e["missing"]):
+            return "missing-flag", "row %d: missing=%r but the row %s a '?'" % (i, g["missing"], "has" if e["missing"] else "has no")
+    return None
+
+
+def arff_fail(case):
+    lines = arff_lines(case)
+    return arff_compare(case, run_arff(lines, case["dense"]))
+
+
+def arff_reduce(case):
+    """structural reduction (drop rows / columns) while the case keeps failing"""
+    cur = case
+    changed = True
+    while changed:
+        changed = False
+        t = cur["table"]
+        for i in range(len(t["rows"]) - 1, -1, -1):
+            cand = dict(cur, table=dict(t, rows=t["rows"][:i] + t["rows"][i + 1:]))
+            if arff_fail(cand) is not None:
+                cur, changed = cand, True
+                break
+        if changed:
+            continue
+        if len(t["cols"]) > 1:
+            for j in range(len(t["cols"]) - 1, -1, -1):
+                cand = dict(cur, table={"cols": t["cols"][:j] + t["cols"][j + 1:], "rows": [r[:j] + r[j + 1:] for r in t["rows"]]})
+                if arff_fail(cand) is not None:
+                    cur, changed = cand, True
+                    break
+    return cur
+
+
+def arff_culprits(case, symptom_kind):
+    """the features of the (structurally reduced) case that cannot be removed without the failure going away"""
+    cur = arff_reduce(case)
+    names = [f[0] for f in arff_features(cur)]
+    for nm in names:
+        fs = {f[0]: f for f in arff_features(cur)}
+        f = fs.get(nm)
+        if f is None or not f[1]:
+            continue
+        try:
+            cand = f[2]()
+            res = arff_fail(cand)
+        except Exception:
+            continue
+        if res is not None:
+            cur = cand
+    left = [f[0] for f in arff_features(cur) if f[1]]
+    t = cur["table"]
+    if len(t["cols"]) == 1:
+        cand = dict(cur, table={"cols": t["cols"] + [{"name": "zz9", "type": "numeric"}], "rows": [r + ["1"] for r in t["rows"]]})
+        if arff_fail(cand) is None:
+            left.append("single-column")
+    if len(t["rows"]) > 1:
+        left.append("rows=%d" % len(t["rows"]))
+    for c in t["cols"]:
+        if c["type"] == "nominal" and len(c["levels"]) > 1:
+            # does the failure need several levels?
+            pass
+    types = sorted({c["type"] for c in t["cols"]})
+    res = arff_fail(cur)
+    return left, (res[0] if res else symptom_kind), types, cur
+
+
+ATTR_SYMPTOMS = ("column-names", "levels", "raises-CobaException", "raises-ValueError", "raises-TypeError", "cell-absent", "raises-IndexError")
+
+
+def arff_family(reduced, symptom, culprits):
+    """root-cause family of an ARFF failure (decided on the reduced case), or None when no known
+    root cause explains it.  The rules name mechanisms of coba/pipes/readers.py."""
+    dense = reduced["dense"]
+    C = {c for c in culprits if not c.startswith("rows=")}
+    chars = {c for c in C if c.startswith(("name-", "level-", "cell-"))}
+    lines = arff_lines(reduced)
+    k = [i for i, l in enumerate(lines) if l.strip().lower() == "@data"]
+    data = [l for l in lines[k[0] + 1:] if l.strip() and not l.strip().startswith("%")] if k else []
+    sq = any("'" in l for l in data)
+    dq = any('"' in l for l in data)
+    if symptom == "missing-flag" and dense:
+        if {"missing", "single-column"} <= C and not chars:
+            return "arff-dense:lone-qmark-row-not-flagged-missing"
+        if "missing" not in C and ({"cell-qmark", "cell-comma"} <= chars or {"level-qmark", "level-comma"} <= chars):
+            return "arff-dense:missing-flag-from-quoted-qmark"      # a quoted value holding "?," / ",?"
+        if "missing" in C and not chars and any(c.startswith("sp-sep=TAB") for c in C):
+            return "arff-dense:missing-flag-tab-delimited"
+    if chars and chars <= {"name-bs", "level-bs"} and symptom in ATTR_SYMPTOMS:
+        return "arff-attr:backslash-in-name-or-level"
+    if "level-comma" in chars and chars <= {"level-comma", "level-space"} and symptom == "raises-IndexError":
+        return "arff-attr:quoted-level-starting-with-comma"
+    if symptom == "missing-marker" and {"level-qmark", "missing"} <= C and chars == {"level-qmark"}:
+        return "arff:level-named-qmark-shadows-missing"
+    if not dense and (sq or dq) and not any(c.startswith("name-") for c in chars) and \
+            symptom in ("cell-str", "cell-cat", "raises-ValueError", "raises-CobaException", "raises-IndexError", "missing-marker"):
+        return "arff-sparse:quoted-value-in-data"
+    if dense and symptom == "missing-marker" and chars == {"cell-qmark"}:
+        return "arff-dense:quoted-qmark-string-read-as-missing"
+    if dense and "sp-sep=TAB" in C and chars & {"cell-comma", "level-comma"} and not any(c.startswith("name-") for c in chars):
+        return "arff-dense:tab-delimited-with-comma-in-quoted-value"
+    if dense and sq and dq and not any(c.startswith("name-") for c in chars) and \
+            symptom in ("cell-str", "cell-cat", "raises-IndexError", "raises-CobaException", "raises-ValueError"):
+        return "arff-dense:data-lines-with-both-quote-characters"
+    return None
+
+
+# ---------------------------------------------------------------------- spelling generators
+def gen_arff_sp(rng, canonical_p=0.45):
+    sp = {"sseed": rng.randint(0, 10 ** 6), "style": rng.choice(["weka", "weka", "liac"])}
+    if rng.chance(canonical_p):
+        return sp
+    opts = {
+        "quote": rng.choice(["single", "double", "mix"]),
+        "kw_case": rng.choice(["lower", "upper", "mixed", "title"]),
+        "type_case": rng.choice(["lower", "upper"]),
+        "sep": rng.choice([",", ", ", "\t", ",  ", "\t "]),
+        "comments": rng.chance(0.4), "blanks": rng.chance(0.4),
+        "attr_ws": rng.choice([" ", "  ", "\t"]),
+        "nominal_sep": rng.choice([",", ", "]), "nominal_pad": rng.choice(["", " "]),
+        "force_quote": rng.chance(0.25), "trail_ws": rng.chance(0.3), "lead_ws": rng.chance(0.2),
+        "date_fmt": rng.chance(0.5), "numeric_word": rng.choice(["numeric", "real", "integer"]),
+        "sparse_sep": rng.choice([",", ", "]), "sparse_pad": rng.choice(["", " "]), "sparse_explicit_zero": rng.chance(0.3),
+    }
+    keep = rng.choice([1, 2, 3, 6, 20])
+    keys = rng.sample(sorted(opts), min(keep, len(opts)))
+    for k in keys:
+        if opts[k] not in (False, "", "lower", "single", ",", " ", "numeric"):
+            sp[k] = opts[k]
+    return sp
+
+
+def gen_via(rng, allow_http=True):
+    r = rng.below(10)
+    if r < 5 or not allow_http:
+        return {"mode": "lines"}
+    if r < 7:
+        return {"mode": "disk", "gz": rng.chance(0.5), "batch": rng.choice([None, None, 1, 2, 3])}
+    return {"mode": "http", "enc": rng.choice([None, "gzip", "deflate"]), "chunk": rng.choice([1, 2, 3, 5, 7, 16, 64, 1024]),
+            "le": rng.choice(["\n", "\r\n"]), "final_nl": rng.chance(0.7), "level": rng.choice([0, 6, 9])}
+
+
+class C12(Property):
+    id = "C12"
+    prop_modules = ["CobaVerif.Props.C12"]
+    quick_n = 1400
+    thorough_n = 30000
+    search_n = 2500
+    case_timeout = 90
+    workers = 8
+    rule = ("six case kinds from one PRNG: chunk (text of 0-6 lines, LF/CRLF/CR and the other str.splitlines boundaries, 1-4 byte "
+            "characters, identity/gzip/deflate at level 0/6/9, one chunk size or ALL sizes 1..len+1 for short streams; boundary-biased so "
+            "that cuts fall inside characters, between CR and LF, after exotic boundaries), delim (arbitrary text chunk lists incl. empty "
+            "chunks), disk (DiskSink->DiskSource, plain/.gz, batch none/1/2/3, several writes), csv (0-8 rows x 1-6 columns, RFC 4180 "
+            "writer with minimal/all/nonnumeric/random quoting, comma or tab, header, blank lines), svm (LibSVM/Manik rows), arff (typed "
+            "table 0-8 x 1-6: numeric/string/date/nominal, missing cells, values with , ' \" \\ space % ? { } non-ASCII; dense or sparse; "
+            "Weka/liac canonical writer or a random subset of permitted spellings). csv/svm/arff lines are delivered directly, through "
+            "DiskSink/DiskSource or through _byte_it_. non-trivial: >=2 lines and >=2 pieces (chunk/delim), >=1 row otherwise")
+    trusted_base = [
+        "zlib/gzip: streaming decompression is assumed to be a homomorphism on concatenation (Decomp.Lawful); the harness feeds the model the decompressed pieces its own decompressobj returns",
+        "CPython: str.splitlines / bytes.decode / csv.reader / int() / float() / TextIOWrapper(newline=None) are modelled (splitlines, u8step, csvChar, universalNl) and the models are compared with them on every case",
+        "text->number conversion (float/int of a token) is CPython's on both sides; the model works on tokens",
+        "ARFF: the Lean theorems cover CSV, LibSVM, Manik and delivery; the ARFF reader is checked differentially only (the harness knows the table it serialised)",
+    ]
+    assumptions = [
+        "values contain no line breaks or tabs (the property's list of value contents: commas, quotes, backslashes, spaces, %, ?, braces, unicode)",
+        "sparse ARFF: coba's documented extra level '0' in front of every sparse nominal attribute is accepted; nominal values are written explicitly (the index-0 convention of sparse ARFF is outside the check)",
+        "LibSVM rows have at least one label (label-less lines are skipped by design, unit-tested)",
+        "charset utf-8",
+    ]
+    partial_theorems = {
+        "chunk_invariance_partial": "the code as it stands is chunk-invariant only on cuts that split no character, no CR LF pair and do not end in an exotic line boundary; the full theorem chunk_invariance is proved for the repaired loop (fixes/C12-utf8-incremental-decoder.diff, fixes/C12-delim-line-boundaries.diff)",
+        "csv_roundtrip_partial": "CsvReader strips every line (str.strip) and raises StopIteration on an empty input; the full theorem csv_roundtrip is proved for the repaired reader (fixes/C12-csv-strip.diff, fixes/C12-csv-empty.diff)",
+    }
+
+    # ------------------------------------------------------------------ generators
+    def gen_chunk(self, rng, tier):
+        text = gen_doc(rng)
+        enc = rng.choice([None, None, "gzip", "deflate"])
+        level = rng.choice([0, 0, 6, 9])
+        data = text.encode("utf-8")
+        if enc is None and len(data) <= (40 if tier == "quick" else 60) and rng.chance(0.5):
+            chunk = "all"
+        else:
+            pos = interesting_positions(data) if enc is None else []
+            if pos and rng.chance(0.7):
+                p = rng.choice(pos)
+                divs = [k for k in range(1, p + 1) if p % k == 0]
+                chunk = rng.choice(divs)
+            else:
+                n = len(compress(data, enc, level))
+                chunk = rng.choice([1, 2, 3, 4, 5, 7, 8, 16, max(1, n - 1), max(1, n), n + 1, 1024])
+        return {"kind": "chunk", "text": text, "enc": enc, "level": level, "chunk": chunk}
+
+    def gen_delim(self, rng, tier):
+        text = gen_doc(rng)
+        cuts = sorted(rng.randint(0, len(text)) for _ in range(rng.choice([0, 1, 2, 3, 5, 8])))
+        if rng.chance(0.5):
+            for i in range(1, len(text)):
+                if (text[i - 1] == "\r" and text[i] == "\n") or text[i - 1] in EXOTIC:
+                    if rng.chance(0.6):
+                        cuts.append(i)
+            cuts.sort()
+        chunks, prev = [], 0
+        for c in cuts:
+            chunks.append(text[prev:c])
+            prev = c
+        chunks.append(text[prev:])
+        return {"kind": "delim", "chunks": chunks}
+
+    def gen_disk(self, rng, tier):
+        nw = rng.choice([1, 1, 1, 2, 3])
+        writes = []
+        bad = rng.chance(0.15)
+        for _ in range(nw):
+            n = rng.choice([0, 1, 2, 3, 4, 6])
+            w = []
+            for _ in range(n):
+                l = "".join(rng.choice(ALPHA_TEXT + ["\x0b", " ", "\x85"]) for _ in range(rng.choice([0, 1, 2, 4, 8])))
+                if bad and rng.chance(0.4):
+                    l += rng.choice(["\r", "\rx", "\n", "\r\n", "x\ny"])
+                w.append(l)
+            if n == 1 and rng.chance(0.4):
+                w = w[0]                     # DiskSink.write accepts a single str
+            writes.append(w)
+        return {"kind": "disk", "writes": writes, "gz": rng.chance(0.5), "batch": rng.choice([None, None, 1, 2, 3])}
+
+    def gen_csv(self, rng, tier):
+        rows, header = gen_csv_table(rng)
+        sp = {"sseed": rng.randint(0, 10 ** 6), "quoting": rng.choice(["minimal", "minimal", "all", "some", "nonnumeric"]),
+              "delimiter": rng.choice([",", ",", "\t", ";"]), "blanks": rng.chance(0.3), "quote_edges": rng.chance(0.3)}
+        return {"kind": "csv", "rows": rows, "header": header, "sp": sp, "via": gen_via(rng)}
+
+    def gen_svm(self, rng, tier):
+        return {"kind": "svm", "rows": gen_svm_rows(rng), "manik": rng.chance(0.4),
+                "sp": {"sseed": rng.randint(0, 10 ** 6), "blanks": rng.chance(0.3), "trail_ws": rng.chance(0.3)}, "via": gen_via(rng)}
+
+    def gen_arff(self, rng, tier):
+        dense = rng.chance(0.65)
+        t = gen_table(rng, tier)
+        return {"kind": "arff", "table": t, "dense": dense, "sp": gen_arff_sp(rng), "via": gen_via(rng) if rng.chance(0.3) else {"mode": "lines"}}
+
+    def generate(self, rng, tier):
+        k = rng.wchoice([(22, "chunk"), (8, "delim"), (10, "disk"), (16, "csv"), (9, "svm"), (35, "arff")])
+        return getattr(self, "gen_" + k)(rng, tier)
+
+    def search(self, rng, tier):
+        k = rng.wchoice([(30, "chunk"), (10, "delim"), (10, "disk"), (20, "csv"), (10, "svm"), (20, "arff")])
+        c = getattr(self, "gen_" + k)(rng, tier)
+        if k == "chunk" and c["enc"] is None and len(c["text"].encode()) <= 60:
+            c["chunk"] = "all"
+        if k == "arff":     # plain tables in the canonical spelling: what must always work
+            c["sp"] = {"sseed": c["sp"]["sseed"], "style": c["sp"].get("style", "weka")}
+        return c
+
+    def corpus(self):
+        cs = []
+        for text in ["aé\r\nb c\x0bd\n", "é", "a\r\nb", "\r\n", "a\r", "\n\n", "", "x", "\U0001F600\r\n中",
+                     "a\x1cb\x1dc\x1ed\x85e f\x0c", "a\r\r\nb\n\rc"]:
+            cs.append({"kind": "chunk", "text": text, "enc": None, "level": 6, "chunk": "all"})
+            for enc in ("gzip", "deflate"):
+                for k in (1, 2, 3):
+                    cs.append({"kind": "chunk", "text": text, "enc": enc, "level": 0, "chunk": k})
+        cs.append({"kind": "chunk", "bytes": [0x61, 0xC3], "enc": None, "level": 6, "chunk": 1})          # truncated stream: an error either way
+        cs.append({"kind": "chunk", "bytes": [0x61, 0xFF, 0x62], "enc": None, "level": 6, "chunk": 2})
+        cs.append({"kind": "chunk", "bytes": [0xED, 0xA0, 0x80], "enc": None, "level": 6, "chunk": 3})    # surrogate
+        cs.append({"kind": "chunk", "bytes": [0xC0, 0x80], "enc": None, "level": 6, "chunk": 5})          # overlong
+        cs.append({"kind": "chunk", "bytes": [0xF4, 0x90, 0x80, 0x80], "enc": None, "level": 6, "chunk": 5})
+        cs.append({"kind": "delim", "chunks": ["a\r", "\nb"]})
+        cs.append({"kind": "delim", "chunks": ["a\r", "", "\n", "b\r", "\n"]})
+        cs.append({"kind": "delim", "chunks": ["a ", "b"]})
+        cs.append({"kind": "delim", "chunks": [" "]})
+        cs.append({"kind": "delim", "chunks": ["a", " ", "b"]})
+        cs.append({"kind": "delim", "chunks": ["", "", ""]})
+        cs.append({"kind": "disk", "writes": [["aé", "", "b "]], "gz": False, "batch": None})
+        cs.append({"kind": "disk", "writes": [["a", "b", "c", "d"], "e"], "gz": True, "batch": 2})
+        cs.append({"kind": "disk", "writes": [["a\rb"]], "gz": False, "batch": None})
+        base = {"sseed": 1, "quoting": "minimal", "delimiter": ","}
+        cs.append({"kind": "csv", "rows": [[" a", "b"]], "header": None, "sp": base, "via": {"mode": "lines"}})
+        cs.append({"kind": "csv", "rows": [["x", ""]], "header": None, "sp": dict(base, delimiter="\t"), "via": {"mode": "lines"}})
+        cs.append({"kind": "csv", "rows": [], "header": None, "sp": base, "via": {"mode": "lines"}})
+        cs.append({"kind": "csv", "rows": [], "header": ["a", "b"], "sp": base, "via": {"mode": "lines"}})
+        cs.append({"kind": "csv", "rows": [["a,b", 'c"d', "", "é"], ["1", "2", "3", "4"]], "header": ["h 1", "h,2", "h3", "h4"], "sp": base, "via": {"mode": "lines"}})
+        cs.append({"kind": "csv", "rows": [[""]], "header": None, "sp": base, "via": {"mode": "lines"}})
+        cs.append({"kind": "svm", "rows": [{"labels": ["1", "2"], "feats": [[0, "1"], [3, "0.5"]]}, {"labels": ["a"], "feats": []}], "manik": False, "sp": {"sseed": 1}, "via": {"mode": "lines"}})
+        cs.append({"kind": "svm", "rows": [{"labels": ["1"], "feats": [[1, "2"]]}], "manik": True, "sp": {"sseed": 1}, "via": {"mode": "lines"}})
+        t = {"cols": [{"name": "a", "type": "numeric"}, {"name": "b b", "type": "string"}, {"name": "c", "type": "nominal", "levels": ["x", "y z", "w"]},
+                      {"name": "d", "type": "date"}],
+             "rows": [["1", "s t", "x", "2001-01-01"], ["2.5", "it's", "y z", "2002-02-02"], [None, "p,q", "w", None], ["0", "100%", "x", "2003-03-03"]]}
+        for dense in (True, False):
+            for sp in ({"sseed": 1, "style": "weka"}, {"sseed": 1, "style": "liac"}, {"sseed": 1, "style": "weka", "kw_case": "upper", "sep": "\t", "comments": True, "blanks": True}):
+                cs.append({"kind": "arff", "table": t, "dense": dense, "sp": sp, "via": {"mode": "lines"}})
+        one = {"cols": [{"name": "a", "type": "numeric"}], "rows": [["1"], [None]]}
+        cs.append({"kind": "arff", "table": one, "dense": True, "sp": {"sseed": 1, "style": "weka"}, "via": {"mode": "lines"}})
+        return cs
+
+    def exhaustive(self, tier):
+        """all chunkings (every subset of cut positions) of short byte strings through DelimSource and all
+        chunk sizes through _byte_it_"""
+        out = []
+        texts = ["a\r\nb", "é\r\n", "a b\r", "\r\n\r\n", "a\n\rb", "\U0001F600\r\nx", "a\x0b\nb", "ab\r"]
+        for t in texts:
+            n = len(t)
+            for mask in range(1 << (n - 1)) if n > 1 else [0]:
+                chunks, prev = [], 0
+                for i in range(1, n):
+                    if mask >> (i - 1) & 1:
+                        chunks.append(t[prev:i])
+                        prev = i
+                chunks.append(t[prev:])
+                out.append({"kind": "delim", "chunks": chunks})
+            out.append({"kind": "chunk", "text": t, "enc": None, "level": 6, "chunk": "all"})
+        return out
+
+    # ------------------------------------------------------------------ evaluation
+    def evaluate(self, case, driver):
+        return getattr(self, "eval_" + case["kind"])(case, driver)
+
+    # .................................................................. chunk
+    def eval_chunk(self, case, driver):
+        fails, tags = [], ["kind:chunk", "enc:%s" % case["enc"]]
+        if "bytes" in case:
+            plain = bytes(case["bytes"])
+        else:
+            plain = case["text"].encode("utf-8")
+        try:
+            text = plain.decode("utf-8")
+            expected = {"ok": text.splitlines()}
+        except UnicodeDecodeError:
+            text = None
+            expected = {"err": "UnicodeDecodeError"}
+            tags.append("invalid-utf8")
+        enc = case["enc"]
+        data = compress(plain, enc, case.get("level", 6))
+        whole = run_byte_it(enc, None, data)
+        if text is not None and whole != {"ok": text}:
+            fails.append(F("B", "_byte_it_(%r,'utf-8',None,..) returned %r, the text is %r" % (enc, whole, text), "chunk:whole-read-differs"))
+        if text is None and "err" not in whole:
+            fails.append(F("B", "_byte_it_ accepted an undecodable stream: %r" % (whole,), "chunk:whole-read-accepts-invalid"))
+        sizes = list(range(1, len(data) + 2)) if case["chunk"] == "all" else [case["chunk"]]
+        if case["chunk"] == "all":
+            tags.append("all-sizes")
+        impl_all, model_all = {}, {}
+        nontrivial = False
+        for k in sizes:
+            impl = run_byte_it(enc, k, data)
+            impl_all[str(k)] = impl
+            pieces = pieces_of(data, enc, k)
+            feats = cut_features(pieces)
+            for f in feats:
+                tags.append("cut:" + f)
+            if len(pieces) >= 2 and text is not None and len(expected["ok"]) >= 2:
+                nontrivial = True
+            if impl != expected:
+                if "err" in expected:
+                    sig = "chunk:accepts-invalid-stream"
+                else:
+                    sig = delivery_sig("chunk", impl, expected, feats)
+                fails.append(F("B", "HttpSource._byte_it_(%r,'utf-8',%d,<%d bytes>) gives %r; text.splitlines() is %r (text %r)"
+                               % (enc, k, len(data), impl, expected, text if text is not None else list(plain)), sig))
+            if driver is not None:
+                ans = driver.ask({"op": "chunk", "pieces": [list(p) for p in pieces]})
+                m = {kk: self._lines_from_model(ans[kk]) for kk in ("cur", "fix", "whole")}
+                model_all[str(k)] = {"cur": m["cur"], "good": ans["good"]}
+                if impl != m["cur"] and impl != m["fix"]:
+                    fails.append(F("A", "chunk size %d: implementation %r, model of the code %r, model of the repaired code %r" % (k, impl, m["cur"], m["fix"]), "A:chunk"))
+                if m["whole"] != expected:
+                    fails.append(F("A", "model decode+splitlines %r differs from CPython %r" % (m["whole"], expected), "A:chunk-spec"))
+                if m["fix"] != m["whole"]:
+                    fails.append(F("C", "model: repaired pipeline differs from the whole-text reading", "C:chunk_invariance"))
+                if ans["good"] and m["cur"] != m["whole"]:
+                    fails.append(F("C", "model: current pipeline differs on a good cut", "C:chunk_invariance_partial"))
+        return {"fails": fails, "nontrivial": nontrivial, "tags": sorted(set(tags)), "impl": impl_all if len(sizes) <= 3 else {"sizes": len(sizes)},
+                "model": model_all if len(sizes) <= 3 else None}
+
+    @staticmethod
+    def _lines_from_model(x):
+        if "err" in x:
+            return {"err": x["err"]}
+        return {"ok": [uncps(l) for l in x["ok"]]}
+
+    # .................................................................. delim
+    def eval_delim(self, case, driver):
+        fails, tags = [], ["kind:delim"]
+        chunks = case["chunks"]
+        text = "".join(chunks)
+        expected = {"ok": text.splitlines()}
+        impl = run_delim(chunks)
+        feats = text_cut_features(chunks)
+        tags += ["cut:" + f for f in feats]
+        if any(c == "" for c in chunks):
+            tags.append("empty-chunk")
+        if impl != expected:
+            fails.append(F("B", "list(DelimSource(IterableSource(%r)).read()) = %r; ''.join(chunks).splitlines() = %r" % (chunks, impl, expected),
+                           delivery_sig("delim", impl, expected, feats)))
+        model = None
+        if driver is not None:
+            ans = driver.ask({"op": "delim", "chunks": [cps(c) for c in chunks]})
+            model = {k: [uncps(l) for l in ans[k]] for k in ("cur", "fix", "whole")}
+            if impl != {"ok": model["cur"]} and impl != {"ok": model["fix"]}:
+                fails.append(F("A", "DelimSource: implementation %r, model of the code %r, of the repaired code %r" % (impl, model["cur"], model["fix"]), "A:delim"))
+            if model["whole"] != expected["ok"]:
+                fails.append(F("A", "model splitlines %r differs from str.splitlines %r" % (model["whole"], expected["ok"]), "A:splitlines"))
+            if model["fix"] != model["whole"]:
+                fails.append(F("C", "model: delimFix differs from splitlines", "C:delim_invariance"))
+            if ans["good"] and model["cur"] != model["whole"]:
+                fails.append(F("C", "model: delimCur differs on a good cut", "C:delim_partial"))
+        return {"fails": fails, "nontrivial": len([c for c in chunks if c]) >= 2 and len(expected["ok"]) >= 2, "tags": tags, "impl": impl, "model": model}
+
+    # .................................................................. disk
+    def eval_disk(self, case, driver):
+        fails, tags = [], ["kind:disk", "gz" if case["gz"] else "plain", "batch:%s" % case["batch"]]
+        writes = case["writes"]
+        flat = []
+        for w in writes:
+            flat += [w] if isinstance(w, str) else list(w)
+        hyp = all("\r" not in l and "\n" not in l for l in flat)
+        impl = run_disk(writes, case["gz"], case["batch"])
+        raw = impl.pop("raw", None)
+        if not hyp:
+            tags.append("line-with-terminator")
+        if hyp and impl != {"ok": flat}:
+            fails.append(F("B", "DiskSink(%s,batch=%r).write(..) x%d then DiskSource.read(): %r, written %r" % ("x.log.gz" if case["gz"] else "x.log", case["batch"], len(writes), impl, flat),
+                           "disk:" + ("raises-" + impl["err"] if "err" in impl else "lines-differ") + (":gz" if case["gz"] else ":plain")))
+        model = None
+        if driver is not None:
+            parts, ok = [], True
+            for w in writes:
+                ans = driver.ask({"op": "disk", "lines": [cps(l) for l in ([w] if isinstance(w, str) else w)], "batch": case["batch"]})
+                if "err" in ans["parts"]:
+                    ok = False
+                    break
+                parts += ans["parts"]["ok"]
+                if ans["hyp"] and ans["read"] != {"ok": [cps(l) for l in ([w] if isinstance(w, str) else w)]}:
+                    fails.append(F("C", "model: diskRead(diskWrite(lines)) != lines under the hypotheses", "C:disk_roundtrip"))
+            if ok:
+                content = bytes(b for p in parts for b in p)
+                rd = driver.ask({"op": "diskread", "bytes": list(content)})["read"]
+                model = self._lines_from_model(rd)
+                if impl != model:
+                    fails.append(F("A", "DiskSource.read(): implementation %r, model %r" % (impl, model), "A:disk-read"))
+        return {"fails": fails, "nontrivial": len(flat) >= 1, "tags": tags, "impl": impl, "model": model}
+
+    # .................................................................. csv
+    def eval_csv(self, case, driver):
+        fails, tags = [], ["kind:csv", "via:" + case["via"]["mode"], "quoting:" + case["sp"].get("quoting", "minimal"),
+                           "delim:" + {",": "comma", "\t": "tab"}.get(case["sp"].get("delimiter", ","), "other")]
+        sp = case["sp"]
+        delim = sp.get("delimiter", ",")
+        plan = csv_plan(case["rows"], sp, case["header"])
+        lines = csv_render(plan, sp)
+        has_header = case["header"] is not None
+        got_lines, exp_lines = deliver(lines, case["via"])
+        if got_lines != {"ok": exp_lines}:
+            return self._delivery_failure(case, lines, got_lines, exp_lines, tags)
+        impl = run_csv(got_lines["ok"], has_header, delim)
+        expected = {"ok": {"header": case["header"] if case["rows"] else None, "rows": case["rows"]}}
+        if has_header:
+            tags.append("header")
+        edge = any(l != l.strip() for l in lines if l.strip())
+        lonews = any(l.strip() == "" and l != "" for l in lines)
+        if edge:
+            tags.append("edge-whitespace")
+        if not plan:
+            tags.append("empty-table")
+        if impl != expected:
+            if "err" in impl:
+                sym = "raises-" + impl["err"]
+            elif len(impl["ok"]["rows"]) != len(case["rows"]):
+                sym = "row-count"
+            elif impl["ok"]["rows"] != case["rows"]:
+                sym = "cells"
+            else:
+                sym = "header"
+            if not plan and sym == "raises-StopIteration":
+                sig = "csv:empty-input-raises-StopIteration"
+            elif (edge or lonews) and sym in ("cells", "row-count", "header", "raises-StopIteration") and \
+                    run_csv_reference(got_lines["ok"], has_header, delim, False) == expected and \
+                    run_csv_reference(got_lines["ok"], has_header, delim, True) == impl:
+                # CPython's csv.reader gives the table on the lines as they are, and exactly what coba returned on the stripped lines
+                sig = "csv:line-strip-eats-edge-whitespace"
+            else:
+                sig = "csv:%s:%s" % (sym, sp.get("quoting", "minimal"))
+            fails.append(F("B", "CsvReader(has_header=%r%s).filter(%r) gives %r; written %r" % (has_header, "" if delim == "," else ", delimiter=%r" % delim,
+                                                                                                  got_lines["ok"], impl, expected), sig))
+        model = None
+        if driver is not None:
+            ans = driver.ask({"op": "csv", "lines": [cps(l) for l in got_lines["ok"]], "delim": ord(delim), "header": has_header})
+            model = {k: self._csv_from_model(ans[k]) for k in ("cur", "fix")}
+            # the reader yields rows lazily: `next()` runs in filter(); a missing header dict is None for no rows
+            if impl != model["cur"] and impl != model["fix"]:
+                fails.append(F("A", "CsvReader: implementation %r, model of the code %r, of the repaired code %r" % (impl, model["cur"], model["fix"]), "A:csv"))
+            w = driver.ask({"op": "csvwrite", "delim": ord(delim), "rows": [[{"q": bool(q), "f": cps(s)} for q, s in pr] for pr in plan]})
+            wl = [uncps(l) for l in w["lines"]]
+            if wl != [l for l in lines if l != ""]:
+                fails.append(F("A", "RFC 4180 writer of the spec %r differs from the harness writer %r" % (wl, lines), "A:csv-writer"))
+            if w["hyp"] and case["via"]["mode"] == "lines" and model["fix"] != expected:
+                fails.append(F("C", "model: csvReaderFix(write rows) != rows under the hypotheses: %r" % (model["fix"],), "C:csv_roundtrip"))
+            if w["hypcur"] and case["via"]["mode"] == "lines" and model["cur"] != expected:
+                fails.append(F("C", "model: csvReaderCur(write rows) != rows under the hypotheses", "C:csv_roundtrip_partial"))
+        return {"fails": fails, "nontrivial": len(case["rows"]) >= 1, "tags": tags, "impl": impl, "model": model}
+
+    @staticmethod
+    def _csv_from_model(x):
+        if "err" in x:
+            return {"err": x["err"]}
+        h = x["ok"]["header"]
+        rows = [[uncps(f) for f in r] for r in x["ok"]["rows"]]
+        if h is not None and rows:      # HeadRows keeps a dict name -> index: the last of equal names wins
+            hd = dict(zip([uncps(f) for f in h], range(len(h))))
+            h = [k for k, _ in sorted(hd.items(), key=lambda kv: kv[1])]
+        else:
+            h = None
+        return {"ok": {"header": h, "rows": rows}}
+
+    def _delivery_failure(self, case, lines, got, exp, tags):
+        via = case["via"]
+        tags = tags + ["delivery-failed"]
+        if via["mode"] == "http":
+            le = via.get("le", "\n")
+            text = le.join(lines) + (le if lines and via.get("final_nl", True) else "")
+            data = compress(text.encode("utf-8"), via.get("enc"), via.get("level", 6))
+            feats = cut_features(pieces_of(data, via.get("enc"), via.get("chunk", 7)))
+            sig = delivery_sig("chunk", got, {"ok": exp}, feats)
+            what = "delivery through HttpSource._byte_it_(%r,'utf-8',%r,..) of %r gives %r" % (via.get("enc"), via.get("chunk"), text, got)
+        else:
+            sig = "disk:" + ("raises-" + got["err"] if "err" in got else "lines-differ") + (":gz" if via.get("gz") else ":plain")
+            what = "delivery through DiskSink/DiskSource of %r gives %r" % (lines, got)
+        return {"fails": [F("B", what, sig)], "nontrivial": True, "tags": tags, "impl": got, "model": None}
+
+    # .................................................................. svm
+    def eval_svm(self, case, driver):
+        fails, tags = [], ["kind:" + ("manik" if case["manik"] else "libsvm"), "via:" + case["via"]["mode"]]
+        lines = write_svm(case["rows"], case["sp"], case["manik"])
+        got_lines, exp_lines = deliver(lines, case["via"])
+        if got_lines != {"ok": exp_lines}:
+            return self._delivery_failure(case, lines, got_lines, exp_lines, tags)
+        impl = run_svm(got_lines["ok"], case["manik"])
+        expected = {"ok": expect_svm(case["rows"])}
+        if impl != expected:
+            sym = "raises-" + impl["err"] if "err" in impl else ("row-count" if len(impl["ok"]) != len(case["rows"]) else "rows-differ")
+            fails.append(F("B", "%sReader().filter(%r) gives %r; written %r" % ("Manik" if case["manik"] else "Libsvm", got_lines["ok"], impl, expected),
+                           "svm:%s:%s" % ("manik" if case["manik"] else "libsvm", sym)))
+        model = None
+        if driver is not None:
+            ans = driver.ask({"op": "svm", "lines": [cps(l) for l in got_lines["ok"]], "manik": case["manik"]})["rows"]
+            if "err" in ans:
+                model = {"err": ans["err"]}
+            else:
+                try:
+                    model = {"ok": [[{int(uncps(k)): float(uncps(v)) for k, v in r["feats"]}, [uncps(l) for l in r["labels"]]] for r in ans["ok"]]}
+                except ValueError:
+                    model = {"err": "ValueError"}
+            if impl != model:
+                fails.append(F("A", "LibsvmReader: implementation %r, model %r" % (impl, model), "A:svm"))
+            if case["via"]["mode"] == "lines" and model != expected:
+                fails.append(F("C", "model: libsvmRead(write rows) != rows", "C:libsvm_roundtrip"))
+        return {"fails": fails, "nontrivial": len(case["rows"]) >= 1, "tags": tags, "impl": impl, "model": model}
+
+    # .................................................................. arff
+    def eval_arff(self, case, driver):
+        dense = case["dense"]
+        sp = case["sp"]
+        tags = ["kind:arff-" + ("dense" if dense else "sparse"), "via:" + case["via"]["mode"], "style:" + sp.get("style", "weka")]
+        tags += ["sp:" + k for k in sp if k not in ("sseed", "style")]
+        if len(sp) <= 2:
+            tags.append("canonical-spelling")
+        for c in case["table"]["cols"]:
+            tags.append("type:" + c["type"])
+        lines = arff_lines(case)
+        got_lines, exp_lines = deliver(lines, case["via"])
+        if got_lines != {"ok": exp_lines}:
+            return self._delivery_failure(case, lines, got_lines, exp_lines, tags)
+        impl = run_arff(got_lines["ok"], dense)
+        res = arff_compare(case, impl)
+        fails = []
+        if res is not None:
+            base = dict(case, via={"mode": "lines"})
+            left, sym, types, red = arff_culprits(base, res[0])
+            fam = arff_family(red, sym, left)
+            sig = fam or "arff-%s:%s:%s" % ("dense" if dense else "sparse", sym, "+".join(left))
+            tags.append("fails:" + (fam or "unclassified"))
+            fails.append(F("B", "ArffReader().filter(lines) %s: %s.  Smallest variant that still fails: %r -> %r  (features needed: %s)"
+                           % (res[0], res[1], arff_lines(red), arff_fail(red), ", ".join(left) or "none"), sig))
+        impl_out = impl if "err" in impl else {"rows": len(impl["ok"])}
+        return {"fails": fails, "nontrivial": len(case["table"]["rows"]) >= 1, "tags": sorted(set(tags)), "impl": impl_out, "model": None}
+
+    # ------------------------------------------------------------------ shrinking / replay
+    def shrink(self, case):
+        k = case["kind"]
+        if "via" in case and case["via"].get("mode") != "lines":
+            yield dict(case, via={"mode": "lines"})
+        if k == "chunk":
+            t = case.get("text")
+            if t:
+                for i in range(len(t)):
+                    yield dict(case, text=t[:i] + t[i + 1:])
+            if case["chunk"] == "all" and t is not None:
+                for kk in range(1, len(compress(t.encode(), case["enc"], case.get("level", 6))) + 2):
+                    yield dict(case, chunk=kk)
+            if case["enc"]:
+                yield dict(case, enc=None)
+        elif k == "delim":
+            ch = case["chunks"]
+            for i in range(len(ch)):
+                if len(ch) > 1:
+                    yield dict(case, chunks=ch[:i] + ch[i + 1:])
+                for j in range(len(ch[i])):
+                    yield dict(case, chunks=ch[:i] + [ch[i][:j] + ch[i][j + 1:]] + ch[i + 1:])
+        elif k == "disk":
+            ws = case["writes"]
+            for i in range(len(ws)):
+                if len(ws) > 1:
+                    yield dict(case, writes=ws[:i] + ws[i + 1:])
+                if not isinstance(ws[i], str):
+                    for j in range(len(ws[i])):
+                        yield dict(case, writes=ws[:i] + [ws[i][:j] + ws[i][j + 1:]] + ws[i + 1:])
+            if case["batch"]:
+                yield dict(case, batch=None)
+            if case["gz"]:
+                yield dict(case, gz=False)
+        elif k == "csv":
+            rows = case["rows"]
+            for i in range(len(rows)):
+                yield dict(case, rows=rows[:i] + rows[i + 1:])
+            if rows and len(rows[0]) > 1:
+                for j in range(len(rows[0])):
+                    yield dict(case, rows=[r[:j] + r[j + 1:] for r in rows], header=(case["header"][:j] + case["header"][j + 1:]) if case["header"] else None)
+            if case["header"]:
+                yield dict(case, header=None)
+            for i, r in enumerate(rows):
+                for j, v in enumerate(r):
+                    for m in range(len(v)):
+                        yield dict(case, rows=rows[:i] + [r[:j] + [v[:m] + v[m + 1:]] + r[j + 1:]] + rows[i + 1:])
+            for key in ("blanks", "quote_edges"):
+                if case["sp"].get(key):
+                    yield dict(case, sp=dict(case["sp"], **{key: False}))
+            if case["sp"].get("quoting") != "minimal":
+                yield dict(case, sp=dict(case["sp"], quoting="minimal"))
+        elif k == "svm":
+            rows = case["rows"]
+            for i in range(len(rows)):
+                yield dict(case, rows=rows[:i] + rows[i + 1:])
+            for i, r in enumerate(rows):
+                for j in range(len(r["feats"])):
+                    yield dict(case, rows=rows[:i] + [dict(r, feats=r["feats"][:j] + r["feats"][j + 1:])] + rows[i + 1:])
+                if len(r["labels"]) > 1:
+                    yield dict(case, rows=rows[:i] + [dict(r, labels=r["labels"][:1])] + rows[i + 1:])
+            if case["manik"]:
+                yield dict(case, manik=False)
+        elif k == "arff":
+            t = case["table"]
+            for i in range(len(t["rows"])):
+                yield dict(case, table=dict(t, rows=t["rows"][:i] + t["rows"][i + 1:]))
+            if len(t["cols"]) > 1:
+                for j in range(len(t["cols"])):
+                    yield dict(case, table={"cols": t["cols"][:j] + t["cols"][j + 1:], "rows": [r[:j] + r[j + 1:] for r in t["rows"]]})
+            for f in arff_features(case):
+                if f[1]:
+                    try:
+                        yield f[2]()
+                    except Exception:
+                        pass
+
+    def snippet(self, case):
+        k = case["kind"]
+        repo = "/repo"
+        head = "import sys, io, zlib, warnings; warnings.filterwarnings('ignore'); sys.path.insert(0,%r)\n" % repo
+        if k == "chunk":
+            plain = bytes(case["bytes"]) if "bytes" in case else case["text"].encode("utf-8")
+            data = compress(plain, case["enc"], case.get("level", 6))
+            ks = case["chunk"] if case["chunk"] != "all" else "range(1,len(data)+2)"
+            return head + ("from coba.pipes.sources import HttpSource\ndata = %r\nplain = %r\n"
+                           "for k in (%s if not isinstance(%s,int) else [%s]):\n"
+                           "    try: got = list(HttpSource._byte_it_(%r,'utf-8',k,io.BytesIO(data)))\n"
+                           "    except Exception as e: got = repr(e)\n"
+                           "    print(k, got, '| expected', plain.decode('utf-8').splitlines())\n" % (data, plain, ks, ks, ks, case["enc"]))
+        if k == "delim":
+            return head + ("from coba.pipes.sources import DelimSource, IterableSource\nchunks = %r\n"
+                           "print(list(DelimSource(IterableSource(chunks)).read()), '| expected', ''.join(chunks).splitlines())\n" % (case["chunks"],))
+        if k == "disk":
+            return head + ("import tempfile, os\nfrom coba.pipes.sinks import DiskSink\nfrom coba.pipes.sources import DiskSource\n"
+                           "p = os.path.join(tempfile.mkdtemp(), %r)\ns = DiskSink(p%s)\nfor w in %r: s.write(w)\nprint(list(DiskSource(p).read()))\n"
+                           % ("f.log.gz" if case["gz"] else "f.log", ", batch=%r" % case["batch"] if case["batch"] else "", case["writes"]))
+        if k == "csv":
+            lines = write_csv(case["rows"], case["sp"], case["header"])
+            d = case["sp"].get("delimiter", ",")
+            return head + ("from coba.pipes.readers import CsvReader\nlines = %r\nrows = list(CsvReader(has_header=%r%s).filter(lines))\n"
+                           "print([list(r) for r in rows], '| written', %r, 'header', %r)\n" % (lines, case["header"] is not None, "" if d == "," else ", delimiter=%r" % d, case["rows"], case["header"]))
+        if k == "svm":
+            lines = write_svm(case["rows"], case["sp"], case["manik"])
+            return head + ("from coba.pipes.readers import LibsvmReader, ManikReader\nlines = %r\nprint(list(%s().filter(lines)), '| written', %r)\n"
+                           % (lines, "ManikReader" if case["manik"] else "LibsvmReader", expect_svm(case["rows"])))
+        if k == "arff":
+            lines = arff_lines(case)
+            return head + ("from coba.pipes.readers import ArffReader\nlines = %r\nrows = list(ArffReader().filter(lines))\n"
+                           "print([(%s, r.missing) for r in rows])\nprint('written', %r)\n"
+                           % (lines, "list(r)" if case["dense"] else "dict(r.items())", expect_arff(case["table"], case["dense"])))
+        return ""
+
+
+def run_csv_reference(lines, has_header, delimiter, stripped):
+    """CPython's csv.reader on the same lines, either as they are (only terminators removed, empty input = no rows)
+    or stripped the way CsvReader strips them; used only to attribute a failure to the `strip` of CsvReader"""
+    import csv
+    try:
+        dialect = {} if delimiter == "," else {"delimiter": delimiter}
+        ls = [l.strip() for l in lines] if stripped else [l.rstrip("\r\n") for l in lines]
+        recs = list(csv.reader(iter([l for l in ls if l]), **dialect))
+        if not recs:
+            return {"err": "StopIteration"} if stripped else {"ok": {"header": None, "rows": []}}
+        if has_header:
+            hd = dict(zip(recs[0], range(len(recs[0]))))
+            return {"ok": {"header": [k for k, _ in sorted(hd.items(), key=lambda kv: kv[1])] if recs[1:] else None, "rows": recs[1:]}}
+        return {"ok": {"header": None, "rows": recs}}
+    except Exception as e:
+        return {"err": errname(e)}
+
+
+PROPERTY = C12()
